@@ -489,13 +489,28 @@ def conv_cases():
 # ------------------------------------------------------------------ the property's statements on the implementation
 
 def direct_tables():
-    """every .nff file: energies in order; and the out-of-order witness replayed on the code"""
+    """every .nff file: energies in order (the out-of-order witness is replayed on the code); the
+    table covers 10 eV .. 30 keV and its absorption factor f2 is positive (what the sweep
+    Proofs/C05SweepDefs.v table_props states), shown on the served values"""
     for el in TAB:
         rows = read_nff(el.symbol)
+        fname = el.symbol.lower() + ".nff"
+        neg = [r for r in rows if not r[2] > 0]
+        if neg:
+            x = neg[0][0] * 0.001
+            fail("C05:%s-f2-not-positive" % fname,
+                 "%s has f2 = %r <= 0 at %r eV (an absorption factor is positive): %s.xray.scattering_factors(energy=%r) = %r"
+                 % (fname, neg[0][2], neg[0][0], el.symbol, x, sf_scalar(el, energy=x)),
+                 input=dict(file=fname, row=list(neg[0])))
+        lo, hi = min(r[0] for r in rows), max(r[0] for r in rows)
+        if lo > 10.0 or hi < 30000.0:
+            x = 0.0100001 if lo > 10.0 else 29.9999
+            fail("C05:%s-range" % fname,
+                 "%s covers only %r .. %r eV: %s.xray.scattering_factors(energy=%r) = %r inside [0.01, 30] keV"
+                 % (fname, lo, hi, el.symbol, x, sf_scalar(el, energy=x)), input=dict(file=fname, first=lo, last=hi))
         bad = out_of_order(rows)
         if not bad:
             continue
-        fname = el.symbol.lower() + ".nff"
         i = bad[0]
         # replay on the implementation: values at the two displaced nodes, and scalar against vector
         x_mid = (rows[i][0] + rows[i - 1][0]) / 2 * 0.001
